@@ -7,6 +7,10 @@ Two independent things live here (neither imports gfapy):
    spellings, placeholders, self-links, hairpins, parallel edges, containments, nested groups, forward
    references (the lines are shuffled), paths whose links exist, a small name pool.  A document is a dict
    {"version": "gfa1"|"gfa2", "lines": [...], "features": [...]}.
+   Custom records take their record type from CUSTOM_RT (X, Y, Q1, zz) unless the caller passes another pool
+   (`custom_rt=`; CUSTOM_RT_WIDE adds record types of several characters: made of predefined codes such as
+   SEG / GU / H# / LC, extending one such as S1 / SEGMENT, lower-case twins, no letter at all) and may be given
+   a larger share of the body lines (`custom_weight=`).
    Validity rules enforced (GFA1 / GFA2 specifications, and only clear-cut ones):
      every referenced identifier is defined; identifiers are unique in their namespace (S+P+link IDs in GFA1,
      S+E+G+O+U in GFA2); LN = |sequence| and slen = |sequence| when the sequence is given; begin <= end <= length,
@@ -36,6 +40,27 @@ OIDS = ["o1", "o2", "o3"]
 UIDS = ["u1", "u2", "u3"]
 EXTERNALS = ["read1", "read2", "r.3"]
 CUSTOM_RT = ["X", "Y", "Q1", "zz"]
+
+
+def _custom_rt_wide():
+    """Record types of custom records beyond the one- and two-character classics: a record type is any string of
+    printable non-space characters that is not itself a predefined code (gfapy: [!-~]+ minus H S E F G O U, and
+    P C L which it refuses inside GFA2; a leading `#` would make the line a comment).  In particular it may be
+    *made of* predefined codes (SEG, GU, UO, FS, H#, LC, ...), may extend one (S1, SEGMENT, Hx, P2), may be a
+    lower-case twin (s, seg) or no letter at all (1, @, !~)."""
+    out = list(CUSTOM_RT)
+    for order, sizes in (("H#FSEGUO", (2, 3, 4, 8)), ("HSFEGOU", (2, 3)), ("LCP", (2, 3)), ("SLCP", (4,))):
+        for n in sizes:
+            for i in range(len(order) - n + 1):
+                rt = order[i:i + n]
+                if not rt.startswith("#") and rt not in out:
+                    out.append(rt)
+    out += ["SEGMENT", "GUIDE", "seg", "s", "e", "S1", "E_1", "Hx", "xS", "UOx", "P2", "LL", "L.C", "SS", "1", "@",
+            "!~", "H:Z"]
+    return out
+
+
+CUSTOM_RT_WIDE = _custom_rt_wide()
 TAGNAMES = ["xx", "yy", "ab", "z9", "aB"]
 DATATYPES = "AifZJHB"
 
@@ -542,7 +567,8 @@ def gen_gfa2(rng, max_lines, o):
     named = list(names)  # identifiers usable as U items
     ogroups = []       # (id, first, last)  oriented ends of the walk
     ugroups = []
-    plan = [rng.choice("EEEEGFFOOUUX") for _ in range(max(0, budget))] if names else \
+    kinds = "EEEEGFFOOUUX" + "X" * o.get("custom_weight", 0)
+    plan = [rng.choice(kinds) for _ in range(max(0, budget))] if names else \
         [rng.choice("X") for _ in range(max(0, budget)) if rng.random() < 0.5]
     for what in plan:
         if len(body) >= budget:
@@ -672,7 +698,8 @@ def gen_gfa2(rng, max_lines, o):
                 continue
             nf = rng.choice([0, 1, 2, 3])
             fields = [rng.choice(["foo", "bar baz", "12", "*", "A+", "x,y", "a:b", "+"]) for _ in range(nf)]
-            body.append("\t".join([rng.choice(CUSTOM_RT)] + fields + gen_tags(rng, [], odd=odd)))
+            rt = rng.choice(o.get("custom_rt") or CUSTOM_RT)
+            body.append("\t".join([rt] + fields + gen_tags(rng, [], odd=odd)))
             feats.append("custom")
     body = seg_lines + body
     return _finish(rng, "gfa2", lines_h, lines_c, body, feats, o)
@@ -680,7 +707,10 @@ def gen_gfa2(rng, max_lines, o):
 
 def gen_doc(rng, version=None, max_lines=12, **o):
     """A valid document.  Options: same_id_groups (multi-line O/U), both_forms, ambiguous_paths, no_custom,
-    no_vn, neutral (no segments: only H/#/custom), odd (probability of a non-canonical spelling), shuffle."""
+    no_vn, neutral (no segments: only H/#/custom), odd (probability of a non-canonical spelling), shuffle,
+    custom_rt (GFA2: the pool of record types of the custom records, default CUSTOM_RT; CUSTOM_RT_WIDE has
+    record types of several characters, among them ones made of predefined codes), custom_weight (GFA2: how many
+    extra shares custom records get among the kinds of body lines, default 0)."""
     if version is None:
         version = rng.choice(["gfa1", "gfa2"])
     d = gen_gfa1(rng, max_lines, o) if version == "gfa1" else gen_gfa2(rng, max_lines, o)
@@ -952,7 +982,7 @@ def defined_and_referenced(lines, version):
         else:
             if rt == "S":
                 defined.append(f[1]); segs.add(f[1])
-            elif rt in "EG":
+            elif rt in ("E", "G"):  # not `in "EG"`: a custom record may be called EG
                 if f[1] != "*":
                     defined.append(f[1])
                 ref_seg.update([f[2][:-1], f[3][:-1]])
